@@ -807,3 +807,260 @@ Proof.
   intros (Hb & Hc & Hpt & Hpa & (Hm & Hd)) (Hpl & Hpd) Hn Hst. subst mk.
   destruct pr; try discriminate. repeat split; auto. discriminate.
 Qed.
+
+Definition SSI (ts : list tr) : Prop := forall j t, nth_error ts j = Some t -> sinv t [].
+
+Definition SLI (rest : list (nat * rep)) (done : list nat) (ts : list tr) : Prop :=
+  forall j t, nth_error ts j = Some t ->
+    sinv t (pend_of j rest) /\ nrf t = [] /\ (In j done -> fin t <> Live) /\
+    (fin t <> Live -> ~ In j done -> pend_of j rest = []).
+
+(* the polled part of SimulatorBackend.fetch_status_results *)
+Definition SQ (ids0 : list nat) (b0 : list (nat * rep)) (ts : list tr) : Prop :=
+  forall j t, nth_error ts j = Some t ->
+    sinv t (pend_of j b0) /\ (fin t <> Live -> pend_of j b0 = []) /\ (In j ids0 -> nrf t = []).
+
+Lemma sinv_take t p : sinv t p -> (fin t <> Live -> p = []) ->
+  sinv (take_nrf t) (p ++ nrf t) /\ (fin t <> Live -> p ++ nrf t = []).
+Proof.
+  unfold sinv, take_nrf, pre_ok, em. destruct t as [lg td pr mk sn cs nr cu dc bs fn pa]; simpl.
+  intros (Hb & Hc & Hpt & Hpa & Hf) Hp. destruct fn.
+  - split; [|congruence]. repeat split; auto; try apply Hf.
+    destruct Hf as (_ & Hd). rewrite app_nil_r. exact Hd.
+  - destruct Hf as (H1 & -> & H3). rewrite (Hp ltac:(congruence)). simpl. repeat split; auto; apply H1.
+  - destruct Hf as (H1 & H2 & -> & H4). rewrite (Hp ltac:(congruence)). simpl. repeat split; auto.
+  - destruct Hf as (H1 & H2 & -> & H4). rewrite (Hp ltac:(congruence)). simpl. repeat split; auto; apply H4.
+Qed.
+
+Lemma fetch_sim_polled_SQ ids : forall ts b0 ids0 ts' b,
+  SQ ids0 b0 ts -> fetch_sim_polled ids ts = (ts', b) -> SQ (ids0 ++ ids) (b0 ++ b) ts'.
+Proof.
+  induction ids as [|i r IH]; intros ts b0 ids0 ts' b H F; simpl in F.
+  - inversion F; subst. rewrite !app_nil_r. exact H.
+  - destruct (nth_error ts i) as [t|] eqn:E.
+    + destruct (fetch_sim_polled r (upd i take_nrf ts)) as [ts2 b2] eqn:F2.
+      inversion F; subst. clear F.
+      apply (IH _ (b0 ++ map (pair i) (nrf t)) (ids0 ++ [i])) in F2.
+      * rewrite <- !app_assoc in F2. exact F2.
+      * intros j t' Hj. apply nth_upd_inv in Hj. destruct Hj as [[N Hj]|[Eij [t0 [Hj Et]]]]; [|subst j t'].
+        -- destruct (H j t' Hj) as (H1 & H2 & H3).
+           rewrite pend_of_app, (pend_of_pair_other i j) by auto. rewrite app_nil_r.
+           split; [exact H1|]. split; [exact H2|].
+           intros Hin. apply H3. apply in_app_or in Hin. destruct Hin as [Hin|[Hin|[]]]; auto; congruence.
+        -- rewrite E in Hj. inversion Hj; subst t0. clear Hj.
+           destruct (H i t E) as (H1 & H2 & H3).
+           destruct (sinv_take t (pend_of i b0) H1 H2) as (G1 & G2).
+           rewrite pend_of_app, pend_of_pair_same.
+           split; [exact G1|]. split; [exact G2|]. intros _. reflexivity.
+    + apply (IH _ b0 (ids0 ++ [i])) in F.
+      * rewrite <- app_assoc in F. exact F.
+      * intros j t' Hj. destruct (H j t' Hj) as (H1 & H2 & H3).
+        split; [exact H1|]. split; [exact H2|].
+        intros Hin. apply H3. apply in_app_or in Hin. destruct Hin as [Hin|[Hin|[]]]; auto; congruence.
+Qed.
+
+Lemma sinv_nrf_nonlive t p : sinv t p -> fin t <> Live -> nrf t = [].
+Proof.
+  unfold sinv. intros (_ & _ & _ & _ & Hf) N. destruct (fin t); try congruence; apply Hf.
+Qed.
+
+Lemma take_nrf_id t : nrf t = [] -> forall p, sinv t p -> sinv (take_nrf t) p.
+Proof.
+  unfold sinv, take_nrf, pre_ok, em. destruct t as [lg td pr mk sn cs nr cu dc bs fn pa]; simpl.
+  intros -> p H. exact H.
+Qed.
+
+(* whole fetch: every running trial is polled, so nothing that is dropped belongs to one *)
+Lemma fetch_sim_SLI ids ts ts' b :
+  SSI ts -> (forall j t, nth_error ts j = Some t -> fin t = Live -> In j ids) ->
+  fetch_sim ids ts = (ts', b) -> SLI b [] ts'.
+Proof.
+  intros H Hcov F. unfold fetch_sim in F.
+  destruct (fetch_sim_polled ids ts) as [ts1 b1] eqn:F1. inversion F; subst. clear F.
+  assert (H0 : SQ [] [] ts).
+  { intros j t Hj. split; [exact (H j t Hj)|]. split; [reflexivity|intros []]. }
+  pose proof (fetch_sim_polled_SQ ids ts [] [] ts1 b H0 F1) as Q. simpl in Q.
+  (* fin is not changed by the polled part *)
+  assert (Hfin : forall ids ts ts1 b, fetch_sim_polled ids ts = (ts1, b) ->
+                 forall j t1, nth_error ts1 j = Some t1 -> exists t, nth_error ts j = Some t /\ fin t = fin t1).
+  { clear. induction ids as [|i r IH]; intros ts ts1 b F j t1 Hj; simpl in F.
+    - inversion F; subst. eauto.
+    - destruct (nth_error ts i) as [t|] eqn:E; [|eapply IH; eauto].
+      destruct (fetch_sim_polled r (upd i take_nrf ts)) as [ts2 b2] eqn:F2. inversion F; subst.
+      destruct (IH _ _ _ F2 j t1 Hj) as (t' & Hj' & Hf).
+      apply nth_upd_inv in Hj'. destruct Hj' as [[N Hj']|[Eij [t0 [Hj' Et]]]]; [eauto|subst j t'].
+      exists t0. split; auto. }
+  intros j t' Hj. rewrite nth_error_map in Hj.
+  destruct (nth_error ts1 j) as [t1|] eqn:E1; simpl in Hj; [|discriminate]. inversion Hj; subst t'. clear Hj.
+  destruct (Q j t1 E1) as (H1 & H2 & H3).
+  assert (Hn : nrf t1 = []).
+  { destruct (fin t1) eqn:Ef; try (eapply sinv_nrf_nonlive; eauto; congruence).
+    apply H3. destruct (Hfin _ _ _ _ F1 j t1 E1) as (t & Hj & Hf). apply (Hcov j t Hj). congruence. }
+  split; [apply take_nrf_id; auto|]. split; [destruct t1; simpl in *; reflexivity|].
+  split; [intros []|]. intros N _. apply H2. destruct t1; exact N.
+Qed.
+
+Lemma SLI_decide i r rest done ts f :
+  SLI ((i, r) :: rest) done ts -> ~ In i done ->
+  (forall t, nth_error ts i = Some t -> fin t = Live -> nrf t = [] ->
+             sinv (t_deliver r t) (pend_of i rest) ->
+             fin (f (t_deliver r t)) <> Live /\ nrf (f (t_deliver r t)) = [] /\ forall p, sinv (f (t_deliver r t)) p) ->
+  SLI rest (i :: done) (upd i f (upd i (t_deliver r) ts)).
+Proof.
+  intros H Hnd Hf j t' Hj.
+  apply nth_upd_inv in Hj. destruct Hj as [[N Hj]|[Eij [t1 [Hj Et]]]]; [|subst j t'].
+  - rewrite nth_upd_other in Hj by auto. destruct (H j t' Hj) as (H1 & H2 & H3 & H4).
+    rewrite pend_of_cons_other in * by auto.
+    split; [exact H1|]. split; [exact H2|]. split.
+    + intros [Hin|Hin]; [congruence|auto].
+    + intros Hn Hnin. apply H4; auto. intros Hin. apply Hnin. right; auto.
+  - apply nth_upd_inv in Hj. destruct Hj as [[N _]|[_ [t [Hj Et]]]]; [congruence|subst t1].
+    destruct (H i t Hj) as (H1 & H2 & H3 & H4). rewrite pend_of_cons_same in *.
+    assert (Hl : fin t = Live).
+    { destruct (fin t) eqn:Ef; auto; exfalso;
+        assert (r :: pend_of i rest = []) by (apply H4; auto; congruence); discriminate. }
+    destruct (Hf t Hj Hl H2 (sinv_deliver _ _ _ H1 Hl)) as (G1 & G2 & G3).
+    split; [apply G3|]. split; [exact G2|]. split; [intros _; exact G1|].
+    intros _ Hnin. exfalso. apply Hnin. left; auto.
+Qed.
+
+Lemma nrf_pause t late : nrf (set_fin Decided (t_pause Sim late t)) = [].
+Proof. unfold t_pause, drop_window, take_nrf. reflexivity. Qed.
+Lemma nrf_stop t late : nrf (set_fin Decided (t_stop Sim late t)) = [].
+Proof. unfold t_stop, drop_window, take_nrf. reflexivity. Qed.
+
+Lemma update_loop_SLI batch : forall decs done ts out ts' out' done',
+  SLI batch done ts ->
+  update_loop Sim batch decs done ts out = (ts', out', done') ->
+  SLI [] done' ts'.
+Proof.
+  induction batch as [|[i r] rest IH]; intros decs done ts out ts' out' done' H F; simpl in F.
+  - inversion F; subst. exact H.
+  - destruct (mem_nat i done) eqn:Em.
+    + apply mem_nat_In in Em. eapply IH; [|exact F].
+      intros j t Hj. destruct (H j t Hj) as (H1 & H2 & H3 & H4).
+      destruct (Nat.eq_dec i j) as [<-|N].
+      * specialize (H3 Em). split; [eapply sinv_pend_irrel; eauto|]. split; [exact H2|]. split; [auto|].
+        intros _ Hn. contradiction.
+      * rewrite pend_of_cons_other in * by auto.
+        split; [exact H1|]. split; [exact H2|]. split; [exact H3|exact H4].
+    + assert (Hnd : ~ In i done) by (intros Hin; apply mem_nat_In in Hin; congruence).
+      destruct (next_dec decs) as [[d late] decs'] eqn:En.
+      destruct d.
+      * eapply IH; [|exact F].
+        intros j t' Hj. apply nth_upd_inv in Hj. destruct Hj as [[N Hj]|[Eij [t [Hj Et]]]]; [|subst j t'].
+        -- destruct (H j t' Hj) as (H1 & H2 & H3 & H4). rewrite pend_of_cons_other in * by auto.
+           split; [exact H1|]. split; [exact H2|]. split; [exact H3|exact H4].
+        -- destruct (H i t Hj) as (H1 & H2 & H3 & H4). rewrite pend_of_cons_same in *.
+           assert (Hl : fin t = Live).
+           { destruct (fin t) eqn:Ef; auto; exfalso;
+               assert (r :: pend_of i rest = []) by (apply H4; auto; congruence); discriminate. }
+           split; [apply sinv_deliver; auto|]. split; [destruct t; exact H2|].
+           split; [intros Hin; contradiction|]. intros Hn. simpl in Hn. congruence.
+      * eapply IH; [|exact F]. apply SLI_decide; auto.
+        intros t Hj Hl Hn Hd. split; [simpl; discriminate|]. split; [apply nrf_pause|].
+        intros p. eapply sinv_pause; eauto.
+      * eapply IH; [|exact F].
+        destruct (status_eqb (status_at ts i) Completed) eqn:Es.
+        -- apply SLI_decide; auto.
+           intros t Hj Hl Hn Hd. split; [simpl; discriminate|]. split; [destruct t; exact Hn|].
+           intros p. apply status_eqb_eq in Es. rewrite (status_at_nth _ _ _ Hj) in Es.
+           eapply sinv_stop_completed; eauto. destruct t; exact Hn.
+        -- apply SLI_decide; auto.
+           intros t Hj Hl Hn Hd. split; [simpl; discriminate|]. split; [apply nrf_stop|].
+           intros p. eapply sinv_stop; eauto.
+Qed.
+
+Lemma sinv_observe t : sinv t [] -> nrf t = [] -> sinv (t_observe t) [].
+Proof.
+  intros H Hn. unfold t_observe. destruct (fin t) eqn:Ef; auto.
+  pose proof (s_live_pre_ok _ _ H Ef) as Hpre. revert H Hpre Hn Ef.
+  unfold sinv, pre_ok, em, status_of, set_fin.
+  destruct t as [lg td pr mk sn cs nr cu dc bs fn pa]; simpl. intros (Hb & Hc & Hpt & Hpa & Hf) (Hpl & Hpd) Hn Ef.
+  subst fn nr. destruct Hf as (Hm & Hd). subst mk. rewrite !app_nil_r in Hd.
+  destruct pr; simpl; repeat split; auto; try (rewrite !app_nil_r; exact Hd).
+  rewrite (Hpt eq_refl) in Hc. rewrite app_nil_r in Hc. congruence.
+Qed.
+
+Lemma observe_SSI ids : forall ts,
+  (forall j t, nth_error ts j = Some t -> sinv t [] /\ nrf t = []) -> SSI (observe ids ts).
+Proof.
+  induction ids as [|i r IH]; intros ts H; simpl.
+  - intros j t Hj. apply (H j t Hj).
+  - apply IH. intros j t' Hj.
+    apply nth_upd_inv in Hj. destruct Hj as [[N Hj]|[Eij [t [Hj Et]]]]; [apply (H j t' Hj)|subst j t'].
+    destruct (H i t Hj) as (H1 & H2). split; [apply sinv_observe; auto|].
+    unfold t_observe. destruct (fin t); auto. destruct (status_of t); auto; destruct t; exact H2.
+Qed.
+
+(* Poll covers every running trial (the tuner polls running_trials_ids) *)
+Definition cov_ev (st : state) (e : ev) : Prop :=
+  tuner_ev e = true /\
+  match e with
+  | Poll ids _ => forall j t, nth_error (trials st) j = Some t -> fin t = Live -> In j ids
+  | _ => True
+  end.
+Fixpoint run_cov (st : state) (evs : list ev) : Prop :=
+  match evs with
+  | [] => True
+  | e :: r => cov_ev st e /\ match step Sim st e with (st1, None) => run_cov st1 r | (_, Some _) => True end
+  end.
+
+Lemma step_SSI st e st' x : SSI (trials st) -> cov_ev st e -> step Sim st e = (st', x) -> SSI (trials st').
+Proof.
+  intros H (Ht & Hg) F. destruct e as [w|reps|i reps|ids decs|ids|i late|i late]; simpl in *; try discriminate.
+  - inversion F; subst; simpl. intros j t' Hj.
+    destruct w as [i k|i|i k]; simpl in Hj;
+      (apply nth_upd_inv in Hj; destruct Hj as [[N Hj]|[Eij [t [Hj Et]]]]; [apply (H j t' Hj)|subst j t']).
+    + apply sinv_emit. apply (H i t Hj).
+    + apply sinv_finish. apply (H i t Hj).
+    + apply sinv_fail. apply (H i t Hj).
+  - inversion F; subst; simpl. intros j t Hj.
+    destruct (Nat.lt_ge_cases j (length (trials st))) as [L|L].
+    + rewrite nth_error_app1 in Hj by auto. apply (H j t Hj).
+    + rewrite nth_error_app2 in Hj by auto.
+      destruct (j - length (trials st)) as [|n]; simpl in Hj; [|destruct n; discriminate].
+      inversion Hj; subst. apply sinv_new.
+  - destruct (nth_error (trials st) i) as [t|] eqn:E; [|inversion F; subst; auto].
+    destruct (status_eqb (status_of t) Paused) eqn:Es; [|inversion F; subst; auto].
+    apply status_eqb_eq in Es. inversion F; subst; simpl. intros j t' Hj.
+    apply nth_upd_inv in Hj. destruct Hj as [[N Hj]|[Eij [t0 [Hj Et]]]]; [apply (H j t' Hj)|subst j t'].
+    rewrite E in Hj. inversion Hj; subst t0. apply sinv_resume; auto. apply (H i t E).
+  - destruct (ids_ok (trials st) ids); [|inversion F; subst; auto].
+    destruct (fetch_sim ids (trials st)) as [ts1 b] eqn:Ef.
+    destruct (update_loop Sim b decs [] ts1 (out st)) as [[ts2 out2] done2] eqn:Eu.
+    inversion F; subst; simpl. clear F.
+    pose proof (fetch_sim_SLI _ _ _ _ H Hg Ef) as L1.
+    pose proof (update_loop_SLI _ _ _ _ _ _ _ _ L1 Eu) as L2.
+    apply observe_SSI. intros j t Hj. destruct (L2 j t Hj) as (H1 & H2 & _). auto.
+Qed.
+
+Lemma run_SSI evs : forall st st' x,
+  SSI (trials st) -> run_cov st evs -> run Sim st evs = (st', x) -> SSI (trials st').
+Proof.
+  induction evs as [|e r IH]; intros st st' x H Hg F; simpl in F, Hg.
+  - inversion F; subst; auto.
+  - destruct Hg as (Hge & Hgr).
+    destruct (step Sim st e) as [st1 [y|]] eqn:Es.
+    + inversion F; subst. eapply step_SSI; eauto.
+    + eapply IH; [|exact Hgr|exact F]. eapply step_SSI; eauto.
+Qed.
+
+Lemma sinv_runs_ok t : sinv t [] -> Forall run_ok (runs_of t).
+Proof.
+  intros H. pose proof H as (Hb & Hc & Hpt & Hpa & Hf).
+  unfold runs_of. apply Forall_app. split; auto. constructor; [|constructor].
+  unfold run_ok; simpl. destruct (fin t) eqn:Ef.
+  - split; [|discriminate]. apply is_prefix_cur; auto. eapply s_live_pre_ok; eauto.
+  - split; [|discriminate]. apply is_prefix_cur; auto. apply Hf.
+  - destruct Hf as (_ & _ & _ & Hd). split; auto. exists (length (cur t)). rewrite Hd. symmetry. apply firstn_all.
+  - split; [|discriminate]. apply is_prefix_cur; auto. apply Hf.
+Qed.
+
+Theorem sim_prefix_once_ordered evs st x :
+  run_cov init evs -> run Sim init evs = (st, x) ->
+  forall i t, nth_error (trials st) i = Some t -> Forall run_ok (runs_of t).
+Proof.
+  intros Hg F i t Hi. apply sinv_runs_ok. eapply run_SSI; eauto.
+  intros [|j] t' Hj; simpl in Hj; discriminate.
+Qed.
